@@ -316,4 +316,28 @@ CHECKS = {
                "invariance) + vm_compute correspondence of the kernels + "
                "NumPy sub-block definitions",
  },
+ "C03": {
+  "text": "What is logic is proved: the two's-complement wrap model and its "
+          "identity on in-range values; for the element widths regenerated "
+          "from types.py / types.pxd (which must agree) int16 holds every "
+          "degree below 32768; the cliquishness normalisation d(d-1)(d-2)"
+          "[(d-3)] fits int32 exactly up to degree 216 and wraps at 217 "
+          "(negative at 221); for the CURRENT source the normalisation is "
+          "evaluated in double and is exact for every degree (otherwise the "
+          "theorem carries the degree-217 witness); with unit node weights "
+          "the n.s.i. degree term equals degree + 1. The cliquishness kernels "
+          "are modelled and compared inside Coq. Everything else is "
+          "translation validation of the library calls: 26 measures against "
+          "direct NumPy / BFS / brute-force definitions on exhaustive small "
+          "graphs, random graphs, families and a degree-224 hub; spectral "
+          "measures by their defining equations on connected graphs "
+          "(partial: no Coq statement for igraph-backed measures).",
+  "design_ref": "DESIGN.md section 5, C03",
+  "note": "trusted: the definitions are written in Python (NumPy, BFS, "
+          "itertools) and are the oracle for most measures; igraph; ARPACK; "
+          "closeness follows igraph's reachable-nodes convention",
+  "technique": "Coq proofs over regenerated width constants (vm_compute "
+               "sweep lifted by forallb, wrap lemma) + definition-vs-"
+               "implementation differential check",
+ },
 }
